@@ -123,6 +123,57 @@ fn driver_cross_check(rep: &Report) {
         crate::c08::check_program_sig(rep, &p, &text, Some(format!("jcc-driver|{}|{}|{:04x}|{}", j.name(), placement, flags, cx)), true, ["jump-target-behind", "jump-target-ahead", "jump-targets-itself"][placement], 300, 2000, &format!("jcc-driver:{}", j.name()));
     });
     rep.count("conditions x placements x flag/CX cases run as programs through the real driver", n as u64);
+    far_placement(rep);
+}
+
+/// every condition, taken, with jump and target beyond instruction index 65535 (and jumps back over the 16-bit
+/// boundary): one program of more than 66000 instructions through replica and binary
+fn far_placement(rep: &Report) {
+    use crate::prog::{Item, Program};
+    let ins = |x: Ins| Item::Ins(x);
+    let mov16 = |r: R16, v: u16| Item::Ins(Ins::Mov(Loc::R16(r), Src::Imm(v)));
+    for variant in 0..2usize {
+        let mut items = vec![Item::Label("start".into()), mov16(R16::BX, 0), mov16(R16::DX, 0), ins(Ins::J(Jcc::Jmp, "body".into()))];
+        // variant 1: targets of backward jumps sit below the boundary, the jumps above it
+        if variant == 1 {
+            items.push(Item::Label("low".into()));
+            items.push(ins(Ins::Alu2(Alu2::Add, Loc::R16(R16::DX), Src::Imm(1))));
+            items.push(ins(Ins::J(Jcc::Jmp, "resume".into())));
+        }
+        for _ in 0..65_600 {
+            items.push(ins(Ins::Simple("cmc")));
+        }
+        items.push(Item::Label("body".into()));
+        let mut k = 0;
+        for j in ALL_JCC {
+            if matches!(j, Jcc::Jmp) {
+                continue;
+            }
+            // a flag word / CX for which the reference takes the jump (JLE: one on which the recorded defect agrees)
+            let cands: [u16; 6] = [ZF | SF, 0, CF, OF, SF, ZF | CF | PF];
+            let cx: u16 = if j == Jcc::Jcxz { 0 } else { 3 };
+            let f = match cands.iter().find(|f| jcc_taken(j, **f, if matches!(j, Jcc::Loop | Jcc::Loope | Jcc::Loopne) { cx - 1 } else { cx })) {
+                Some(f) => *f,
+                None => continue,
+            };
+            k += 1;
+            items.extend(vec![mov16(R16::AX, f), ins(Ins::Push(Loc::R16(R16::AX))), ins(Ins::Simple("popf")), mov16(R16::CX, cx)]);
+            let t = format!("far{}", k);
+            items.push(ins(Ins::J(j, t.clone())));
+            items.push(ins(Ins::Alu2(Alu2::Add, Loc::R16(R16::BX), Src::Imm(1))));
+            items.push(Item::Label(t));
+            items.push(ins(Ins::Alu2(Alu2::Add, Loc::R16(R16::DX), Src::Imm(256))));
+        }
+        if variant == 1 {
+            items.push(ins(Ins::J(Jcc::Jmp, "low".into())));
+            items.push(Item::Label("resume".into()));
+        }
+        items.push(mov16(R16::SI, 77));
+        let p = Program { data: vec![], items };
+        let text = p.render_plain().text;
+        crate::c08::check_program_sig(rep, &p, &text, Some(format!("jcc-driver|far|{}", variant)), true, "jump-and-target-beyond-index-65535", 2000, 4000, "jcc-driver:far");
+    }
+    rep.count("programs with every condition placed beyond instruction index 65535", 2);
 }
 
 pub fn run(rep: &Report) {
